@@ -57,12 +57,15 @@ Definition op_fault (args : list sx) : sx :=
    - a returned count equals the number of bytes accepted. *)
 Definition judge_fault (args : list sx) (impl : sx) : bool :=
   match args, impl with
-  | kind :: SL a :: SZ k :: _, SL [SB acc; SZ err; SZ cnt] =>
+  | kind :: SL a :: SZ k :: mode :: _, SL [SB acc; SZ err; SZ cnt] =>
       if fault_taint kind a then false else
       match fault_output kind a with
       | Some (Ok out) =>
           let kN := Z.to_N k in
-          is_prefix acc out && (lenN acc <=? kN)
+          (* mode 2: the Write that crosses the budget, and every later one, takes all its bytes and still
+             reports an error: more than k bytes arrive, and the error must surface all the same *)
+          let full := match mode with SZ 2%Z => true | _ => false end in
+          is_prefix acc out && (if full then (if kN <? lenN out then kN <? lenN acc else true) else (lenN acc <=? kN))
           && (if kN <? lenN out then negb (err =? 0)%Z
               else (err =? 0)%Z && bytes_eqb acc out)
           && ((cnt =? -1)%Z || (cnt =? Z.of_N (lenN acc))%Z)
